@@ -117,6 +117,36 @@ def run(tier, seed, replay=None):
     assert_repo_import()
     chk = Check("C05", tier, seed)
     model_ok = chk.proof_stage(["Scope/ScanFile.vo", "Scope/WfProofsCerts.vo"])
+    # ---- what a scan reports about a file is well formed with respect to the file AS IT IS NOW, also when an earlier scan left
+    #      a cache: a file that is not valid UTF-8 is edited only in its invalid bytes and rescanned (seeded change C05-17: the
+    #      checksum ignores such bytes, the stale entry names a function that is no longer there)
+    import shutil
+    import tempfile
+    import fs_common as F
+    tmp_l = tempfile.mkdtemp(prefix="verif_c05l_")
+    try:
+        for k in range(3 if tier == "quick" else 20):
+            try:
+                wc, _, now, rel = F.latin1_edit_scenario(tmp_l, k)
+                text = now.decode("latin-1")
+                lines = text.split("\n")
+                chk.evaluations += 1
+                chk.count("non-UTF-8 file edited in its invalid bytes, rescanned with the cache")
+                probs = []
+                for m in wc["codebase"]["files"].get(rel, {}).get("measurements", []):
+                    sl, sc, el, ec = m["start"]["line"], m["start"]["column"], m["end"]["line"], m["end"]["column"]
+                    if not (1 <= sl <= el <= len(lines)) or not (1 <= sc <= len(lines[sl - 1]) + 1) or not (1 <= ec <= len(lines[el - 1]) + 1):
+                        probs.append(f"{m['unit_name']}: span {sl}:{sc}-{el}:{ec} lies outside the text")
+                    elif m["unit_name"] not in "\n".join(lines[sl - 1:el]):
+                        probs.append(f"{m['unit_name']}: the name does not occur in lines {sl}..{el} of the file")
+                if probs:
+                    chk.violation({"file": rel, "text": text}, f"{rel} rescanned with the cache after an edit of its non-UTF-8 bytes: " + "; ".join(probs))
+                else:
+                    chk.nontrivial.add(("latin1", k))
+            except Exception as ex:
+                chk.violation({"scenario": "latin1"}, f"rescan of an edited non-UTF-8 file raised {type(ex).__name__}: {ex}")
+    finally:
+        shutil.rmtree(tmp_l, ignore_errors=True)
     per_lang, chunks = (600, 6) if tier == "quick" else (20000, 64)
     jobs = [(lang, seed * 1000 + c, per_lang // chunks) for lang in LC.LANGS for c in range(chunks)]
     model_cases = []
